@@ -293,6 +293,31 @@ def _effective(L):
     return m.groups()
 
 
+def _should_exclude(L):
+    """Config::should_exclude_prompts: empty list -> false; `*` pattern -> true; unknown remotes -> false; no remotes ->
+    false; otherwise <quantifier over remotes> of <quantifier over patterns> of pattern.matches(url)."""
+    rel = "src/config.rs"
+    f = _norm(_fn_text(L, rel, "should_exclude_prompts"))
+    head = (r"\{ if self\.exclude_prompts_in_repositories\.is_empty\(\) \{ return false; \} "
+            r"let has_wildcard = self \.exclude_prompts_in_repositories \.iter\(\) "
+            r"\.any\(\|pattern\| pattern\.as_str\(\) == \"\*\"\); if has_wildcard \{ return true; \} "
+            r"let remotes = repository \.as_ref\(\) \.and_then\(\|repo\| repo\.remotes_with_urls\(\)\.ok\(\)\); "
+            r"match remotes \{ Some\(remotes\) => \{ (.*) \} None => false, \} \}$")
+    m = re.search(head, f)
+    if not m:
+        raise L.GenError("should_exclude_prompts: unrecognised shape")
+    inner = m.group(1).strip()
+    core = (r"remotes\.iter\(\)\.(any|all)\(\|remote\| \{ self\.exclude_prompts_in_repositories \.iter\(\) "
+            r"\.(any|all)\(\|pattern\| pattern\.matches\(&remote\.1\)\) \}\)")
+    m1 = re.fullmatch(r"if remotes\.is_empty\(\) \{ false \} else \{ " + core + r" \}", inner)
+    m2 = re.fullmatch(r"!remotes\.is_empty\(\) && " + core, inner)
+    mm = m1 or m2
+    if not mm:
+        raise L.GenError(f"should_exclude_prompts: unrecognised remotes branch {inner[:120]!r}")
+    q = {"any": "QAny", "all": "QAll"}
+    return q[mm.group(1)], q[mm.group(2)]
+
+
 def _cannot_refetch(L):
     rel = "src/git/repo_storage.rs"
     f = _norm(_fn_text(L, rel, "append_checkpoint"))
@@ -384,6 +409,7 @@ def generate(L):
     cas_atoms = _cas_clear_condition(L)
     excl, inc_empty_dflt, inc_match_dflt, fallback = _effective(L)
     rules, default = _cannot_refetch(L)
+    q_remotes, q_patterns = _should_exclude(L)
 
     lines = [
         "Inductive action := AStrip | ARedact | AKeep | ARedactThenCas.",
@@ -404,6 +430,11 @@ def generate(L):
         "(* a successful CAS enqueue uploads and clears exactly the prompts that meet ALL of these conditions *)",
         "Inductive cas_atom := CHasMessages | CAcceptedPositive.",
         "Definition cas_clear_when : list cas_atom := [" + "; ".join(cas_atoms) + "].",
+        "(* should_exclude_prompts: no patterns -> false; a `*` pattern -> true; remotes unknown or none -> false;",
+        "   otherwise <excl_over_remotes> remote . <excl_over_patterns> pattern . pattern.matches(url) *)",
+        "Inductive quant := QAny | QAll.",
+        f"Definition excl_over_remotes : quant := {q_remotes}.",
+        f"Definition excl_over_patterns : quant := {q_patterns}.",
         f"Definition eff_excluded : smode := M{excl}.",
         f"Definition eff_unparsable_global : smode := M{inc_empty_dflt}.",
         f"Definition eff_unparsable_global_included : smode := M{inc_match_dflt}.",
